@@ -40,3 +40,19 @@ Definition op_fuel_safe (st : option (env * heap)) (o : op) : bool :=
   end.
 Fixpoint fuel_safe (ops : list op) (st : option (env * heap)) : bool :=
   match ops with [] => true | o :: t => op_fuel_safe st o && fuel_safe t (run_op st o) end.
+
+(* ---- well-formed histories over OPS_X: as wf_op / wf_hist, and the needle of a search is not a function (callback form) *)
+Definition needle_ok (vs : list value) : bool := match vs with _ :: VFun _ :: _ => false | _ => true end.
+Definition wf_op_x (st : env * heap) (o : op) : bool :=
+  match o with
+  | OCall f l =>
+      if is_search f then forallb (wf_arg st) l && match eval_args (fst st) l with Some vs => needle_ok vs | None => true end
+      else in_OPS_s f && forallb (wf_arg st) l
+  | OAlias n => Nat.ltb n (length (fst st))
+  | OLit v => val_ok (snd st) v
+  end.
+Fixpoint wf_hist_x (ops : list op) (st : env * heap) : bool :=
+  match ops with
+  | [] => true
+  | o :: t => wf_op_x st o && match run_op (Some st) o with Some st' => wf_hist_x t st' | None => true end
+  end.
